@@ -91,6 +91,10 @@ register("C02", "exploration", "E1 explore", "exhaustive enumeration of small di
          "Every tree of <= 3 (thorough 4) nodes over 7 node kinds (incl. four kinds of relative symlinks) round-tripped through writeall+extractall; for six richer trees every combination of <= 2 (thorough 3) deviations over per-node modes, mtimes, name classes, arcname, dereference, default filters, password, shutil entry points, absolute source; and a sweep of 557 modification times over 1970..2100. Oracle: lstat/readlink/bytes of the extracted tree vs the source, permission bits, |delta mtime| <= 5 us.",
          "uid 0 on tmpfs; Windows branches unreachable; dereference is not combined with links whose target contains the link.", "DESIGN.md section 5 C02")
 
+register("C11", "exploration", "E1 explore", "full product enumeration of (AES chain x header-encryption mode x password) with byte-level leak searches and exhaustive single-edit wrong-password attacks on low-cycle reference archives",
+         "Every AES chain family x header encryption off/ctor/setter x 5 (thorough 6) password classes: raw-byte searches for plaintext and names, decoding with the AES stage left out, keyless parse, IV/ciphertext uniqueness across two archives, outcomes with right / absent / 4 classes of wrong passwords; plus 9 reference-written archives with 2^0/2^4 KDF rounds attacked with every single-edit neighbour of the password.",
+         "AES and SHA-256 primitives are trusted; py7zr's KDF is memoised (the independent KDF in ref7z cross-checks it in C07).", "DESIGN.md section 5 C11")
+
 NOT_YET = {}
 
 
